@@ -536,6 +536,11 @@ def angdiff(a, b=None):
         >>> angdiff(3 * pi)
 
     """
+    # array_like: lists and tuples as well as arrays and scalars
+    if isinstance(a, (list, tuple)):
+        a = np.array(a)
+    if isinstance(b, (list, tuple)):
+        b = np.array(b)
     if b is None:
         return np.mod(a + math.pi, 2 * math.pi) - math.pi
     else:
